@@ -7,6 +7,7 @@ import (
 	"sort"
 
 	sm "github.com/lni/dragonboat/v4/statemachine"
+	drummer "github.com/lni/drummer/v3"
 	pb "github.com/lni/drummer/v3/drummerpb"
 	"github.com/lni/drummer/v3/settings"
 	"google.golang.org/protobuf/proto"
@@ -203,6 +204,16 @@ func (o *Oracle) tick(idx int, res string, pre, post *Dump, db sm.IStateMachine)
 		}
 		if _, p := Hash(db); !p {
 			o.fail("C09", "failstop_refuses_hash", "hash-after-failstop", "a hash was produced after the fail-stop", idx)
+		}
+		// the fail-stop is for good: installing a snapshot (as dragonboat does for a replica that fell behind) is
+		// refused, or at least leaves the replica failed
+		if snap, p := Snapshot(drummer.NewDB(0, 7)); !p {
+			o.Run.Count("c09:snapshot_install_after_failstop_checked")
+			refused := RestoreInto(db, snap)
+			_, q := LookupShards(db)
+			if !q || Apply(db, (&Op{Op: "tick"}).ToUpdate()) != "panic" {
+				o.fail("C09", "failstop_is_for_good", "failstop-lifted-by-snapshot-install", fmt.Sprintf("a fail-stopped replica serves again after a snapshot was installed into it (install refused=%v)", refused), idx)
+			}
 		}
 		return
 	}
